@@ -41,6 +41,7 @@ _JSON_ESCAPES = {c: "\\u%04x" % c for c in (*range(0x20), *range(0xD800, 0xE000)
 _JSON_ESCAPES.update(
     {8: "\\b", 9: "\\t", 10: "\\n", 12: "\\f", 13: "\\r", 34: '\\"', 92: "\\\\"}
 )
+_SURROGATE_PAIR = re.compile("([\ud800-\udbff][\udc00-\udfff])")
 
 
 # Largest length accepted for a freshly allocated Array / typed array / ArrayBuffer
@@ -1090,6 +1091,13 @@ class Context:
             def quote(text):
                 # QuoteJSONString: unlike the host encoder it leaves non-ASCII
                 # characters alone
+                if _SURROGATE_PAIR.search(text) is not None:
+                    # a lead surrogate followed by a trail one is a well-formed pair and
+                    # is written as is; only lone surrogates are escaped
+                    return '"' + "".join(
+                        part if i % 2 else part.translate(_JSON_ESCAPES)
+                        for i, part in enumerate(_SURROGATE_PAIR.split(text))
+                    ) + '"'
                 return '"' + text.translate(_JSON_ESCAPES) + '"'
 
             # The third argument asks for line breaks and indentation: up to ten
